@@ -11,7 +11,7 @@ TIERS = {
                             "hazard_names": 9, "implicit_looking_names": ["cls", "this"], "ImplKw": 1, "FullOptParams": 1, "FullOptKw": 1, "KindParams": 2, "CtxParams": 2}},
     "thorough": {"cfg": "MC_LogCall_Thorough.cfg", "variants": [0, 1, 2, 3], "shards": 16, "timeout": 1500,
                  "constants": {"MaxParams": 4, "MaxPos": 4, "MaxKw": 2, "MaxHaz": 1, "HazParams": 3, "HazPos": 3, "HazKw": 2,
-                               "hazard_names": 11, "implicit_looking_names": ["cls", "klass", "this", "me"], "ImplKw": 2, "FullOptParams": 2, "FullOptKw": 1, "KindParams": 3, "CtxParams": 3}},
+                               "hazard_names": 11, "implicit_looking_names": ["cls", "klass", "this", "me"], "ImplKw": 1, "FullOptParams": 2, "FullOptKw": 1, "KindParams": 3, "CtxParams": 3}},
 }
 GUARDS = [("MC_LogCall_Broken1.cfg", "BrokenNoDupCheck"), ("MC_LogCall_Broken2.cfg", "BrokenNoDeviation")]
 SUMMARY = {
